@@ -1,0 +1,43 @@
+//go:build verif
+
+package dcp
+
+import (
+	"os"
+
+	"github.com/asaskevich/EventBus"
+	"github.com/prometheus/client_golang/prometheus"
+
+	"github.com/Trendyol/go-dcp/config"
+	"github.com/Trendyol/go-dcp/couchbase"
+	"github.com/Trendyol/go-dcp/models"
+)
+
+// Verification hooks (build tag "verif" only).
+
+// VerifLoadConfig exposes newDcpConfig (YAML file with ${VAR} placeholders).
+func VerifLoadConfig(path string) (config.Dcp, error) {
+	return newDcpConfig(path)
+}
+
+// VerifNewDcp builds the dcp struct around a supplied client exactly as newDcp does after it has
+// connected and read the server version and bucket information.
+func VerifNewDcp(cfg *config.Dcp, client couchbase.Client, consumer models.Consumer,
+	version *couchbase.Version, bucketInfo *couchbase.BucketInfo,
+) Dcp {
+	cfg.ApplyDefaults()
+	return &dcp{
+		client:           client,
+		consumer:         consumer,
+		config:           cfg,
+		version:          version,
+		bucketInfo:       bucketInfo,
+		apiShutdown:      make(chan struct{}, 1),
+		cancelCh:         make(chan os.Signal, 1),
+		stopCh:           make(chan struct{}, 1),
+		readyCh:          make(chan struct{}, 1),
+		metricCollectors: []prometheus.Collector{},
+		eventHandler:     models.DefaultEventHandler,
+		bus:              EventBus.New(),
+	}
+}
